@@ -3,14 +3,20 @@ CLAIMS["C17"] = dict(
     technique="explicit-state exploration of operation histories on the real Meter / ObservableRegistry / AsyncMetricStorage / TemporalMetricStorage (and, in an ABI v2 build, "
               "the synchronous Gauge) against a per-reader reference model (bounded depth, canonical-state pruning on the private maps, deterministic virtual clock that never ties)",
     text="Observable counter, up-down counter and gauge (int64 and double) with 1..3 pull readers of mixed temporality and three callbacks that pairwise share the function or the "
-         "state pointer: every history of AddCallback / RemoveCallback / destroy-instrument / script(callback: step, decrease (not for counters), attribute set appears / disappears) / "
+         "state pointer: every history of AddCallback / RemoveCallback / destroy-instrument / script(callback: step, decrease, attribute set appears / disappears, one invocation observing a set 1-3 times) / "
          "Collect(reader); quick = depth 5 after AddCallback(cb0) over 6 reader configurations (D, C, DD, DC, DDC, DCC); thorough = depth 5 with the richer script alphabet over all 14 ordered reader "
          "configurations and both start states, depth 6 over the 6 representatives, depth 7 with a slim alphabet (two callbacks, at most two readers). Per Collect: every registered "
          "callback invoked exactly once, no other callback invoked (removed / instrument destroyed); for every attribute set observed by the collection a cumulative reader gets the "
          "reported total, a delta reader the total minus what that reader had been given, a gauge the observed value; points for attribute sets not observed by the collection must, "
-         "if present, carry the latest observation. Second harness (SDK rebuilt with OPENTELEMETRY_ABI_VERSION_NO=2): synchronous Gauge<int64_t>/Gauge<double>, every history of "
-         "Record(value, attrs) / Collect(reader), depth 4 (quick) / 5 over all 14 reader configurations and 6 over those with at most two readers (thorough): every point is the most recently "
+         "if present, carry the latest observation. Sub-run 'second instrument' (quick depth 4, thorough depth 6): a second observable gauge o2 of the OTHER value type on the same meter "
+         "whose callback is the same (function, state) pair as cb0 of the first instrument; histories of step / AddCallback / RemoveCallback on either instrument, Destroy(o), Destroy(o2), "
+         "Collect, starting with both registered in either order; invocation counts are kept per (instrument, callback) and both streams are compared. The readers' temporality selector "
+         "depends on the instrument type it is asked about (configured temporality for the types of this meter's instruments, the opposite otherwise). Second harness (SDK rebuilt with OPENTELEMETRY_ABI_VERSION_NO=2): synchronous Gauge<int64_t>/Gauge<double>, every history of "
+         "Record(value, attrs) / Collect(reader) through all four Record overloads (with and without attributes / explicit context), depth 4 (quick) / 5 over all 14 reader configurations and 6 over those with at most two readers (thorough): every point is the most recently "
          "recorded value and a value recorded since the reader's previous collection is reported. The alphabet never registers the same (callback, state) pair twice and never lets two "
          "callbacks report the same attribute set in one collection. The default clock never ties; a separate sub-run of both harnesses (gauges only, depth 4 quick / 5 thorough) lets the "
-         "clock stand still during every operation and lets at most two clock-reading operations per history happen without clock progress; its findings carry the prefix C17:clock-tie.",
+         "clock stand still during every operation and lets at most two clock-reading operations per history happen without clock progress; its findings carry the prefix C17:clock-tie. "
+         "Every Record overload of both gauge classes on a gauge created from a meter whose MeterProvider is gone must return. Engine-A harness c17_conc (preemption bound 2 / 3): a collection in "
+         "flight while another thread removes a callback or destroys the instrument, and two readers (cumulative + delta) collecting concurrently on one observable counter / gauge "
+         "(one invocation per collection, cumulative = reported total, the delta reader's points add up to it).",
     note=SEQ_NOTE)
